@@ -376,14 +376,8 @@ class AbstractExcelInPython(ABC):
 
         result_date += relativedelta(months=month - 1)
 
-        days_in_current_month = calendar.monthrange(result_date.year, result_date.month)[1]
-        if abs(day) > days_in_current_month:
-            while abs(day) > days_in_current_month:
-                result_date += relativedelta(months=1 if (day > 0) else (-1))
-                day += (-days_in_current_month) if day > 0 else days_in_current_month
-                days_in_current_month = calendar.monthrange(result_date.year, result_date.month)[1]
-
-        result_date += relativedelta(days=day - 1 if (day >= -1) else day - 2)
+        # day 1 is the first of that month; zero, negative and overflowing days simply count on from there
+        result_date += datetime.timedelta(days=day - 1)
 
         return result_date
 
@@ -395,8 +389,9 @@ class AbstractExcelInPython(ABC):
             return "#NUM!"
         match mode:
             case 'Y':
-                return (date_end - date_start).days // (366 if calendar.isleap(date_start.year) and
-                                                        date_start.month <= 2 else 365)
+                # complete years = complete months // 12 (days // 365 drifts over leap years)
+                return (12 * (date_end.year - date_start.year) + (date_end.month - date_start.month)
+                        - (1 if date_start.day > date_end.day else 0)) // 12
             case 'M':
                 result = 12 * (date_end.year - date_start.year) + (date_end.month - date_start.month)
                 if date_start.day > date_end.day:
@@ -412,9 +407,9 @@ class AbstractExcelInPython(ABC):
                     return calendar.monthrange(prev_month_date.year, prev_month_date.month)[1] - (
                         date_start.day - date_end.day)
             case 'YM':
-                return (12 if date_start.month > date_end.month and date_end.year > date_start.year else 0) \
-                    + (date_end.month - date_start.month) \
-                    + (-1 if date_start.day > date_end.day else 0)
+                # months beyond the complete years
+                return (12 * (date_end.year - date_start.year) + (date_end.month - date_start.month)
+                        - (1 if date_start.day > date_end.day else 0)) % 12
             case 'YD':
                 return (date_end - date_start).days % (366 if calendar.isleap(date_start.year) and
                                                        date_start.month <= 2 else 365)
